@@ -761,6 +761,16 @@ func genOne(g *hx.Gen) {
 						mark("open-acc")
 					} else {
 						gs.slots[slot] = nil
+						switch {
+						case strings.HasPrefix(typ, "b"):
+							rejectReasons[2] = true
+						case strings.HasPrefix(typ, "u"):
+							rejectReasons[3] = true
+						case strings.HasPrefix(typ, "r"):
+							rejectReasons[4] = true
+						default:
+							rejectReasons[1] = true
+						}
 						g.Stat("open.rejected")
 						mark("open-rej")
 					}
@@ -1032,6 +1042,7 @@ var pairCount = map[string]int{}
 var msgArmKnown = map[string]bool{}
 var msgArmUnknown = map[string]bool{}
 var msgArmMux = map[string]bool{}
+var rejectReasons = map[int]bool{}
 
 func notePairs(feat map[string]bool) {
 	for i, a := range c36Features {
@@ -1159,6 +1170,7 @@ func emitCoverage(g *hx.Gen) {
 	g.Stat("table.msgtype-mux-level=" + cnt(muxArms, msgArmMux))
 	g.Stat("table.msgtype-known-channel=" + cnt(chanArms, msgArmKnown))
 	g.Stat("table.msgtype-unknown-channel=" + cnt(chanArms, msgArmUnknown))
+	g.Stat(fmt.Sprintf("table.reject-reason=%d/4", len(rejectReasons)))
 }
 
 // genFlood: regression family of the fixed finding mux-blocked-by-unsolicited-channel-messages — an accepted channel
